@@ -32,6 +32,10 @@ INFO = {
    text="Lean 4 theorems over a model of evaluate_preview_with_interrupt in which the evaluator is an ARBITRARY function (may mutate any context field, fail, or be interrupted): the context after a preview equals the context before it; an evaluator that can reach host callbacks only through the context fields invokes none during a preview; a returned preview is non-empty, not unit-typed, at most 50 bytes, not an echo of the input and free of control characters. The hypothesis 'callbacks only via context' is pinned to the source by a regenerated table of every read of random_u32 / get_exchange_rate (Tie A). Tied to the Rust by previewing every prefix of generated inputs on contexts built from all flag combinations, uninterrupted and with interrupts fired at several call counts, with counting rng / exchange-rate callbacks and before/after probes.",
    note="Trusted: Lean kernel + 3 axioms; translator/callback_sites.py (regex scan of function bodies); the harness's probe set as the observable state of a Context (variables, _/ans, separator style, C/F mode, custom units, handlers).",
    technique="Lean 4 proof parametric in the evaluator + regenerated callback-site table + differential correspondence", ref="7/C13"),
+ "C20": dict(
+   text="Lean 4 theorems over a byte-level model of the cache framing, the EU parser and the lookup, for ALL file contents: the EU path never panics (the only partial operation, split_at(3), is reached behind a boundary check; the ';' split is always on a boundary), every reported rate text is a contiguous piece of the file as presented, and therefore for EVERY truncation point of a good file a reported rate stands verbatim in the good file. Tied to the Rust by running the built fend binary on every prefix (sampled in quick), single-character substitutions incl. multi-byte characters, framing variants, non-UTF-8 and random edits of representative EU and UN cache files, comparing the rate it prints with the model's rate text and with the numbers that stand verbatim in the file.",
+   note="Partial: str::parse::<f64> and is_normal are a parameter of the model (okRate); the UN parser is modelled and diffed but its no-panic/verbatim theorems are not proved yet (its slices follow a successful find of a longer ASCII needle); Unicode White_Space trimming is modelled by an explicit table. Representative cache files are constructed from the formats the parsers accept (no network). Trusted: Lean kernel + 3 axioms, python runner.",
+   technique="Lean 4 proof (no-panic + infix/verbatim lemmas over bytes) + differential runs of the built binary on damaged caches", ref="7/C20"),
 }
 def main():
     hooks = subprocess.check_output("git -C /repo log --format=%H --grep='verif-hooks' --grep='verif hooks' -i", shell=True, text=True).split()
